@@ -700,6 +700,7 @@ def run(tier):
     check_rle_structure(rep)
     from props import pokevc
     pokevc.check_poke(rep, 'C09', tier)        # the cell-writing kernel of poke(): exactly the named cells, f(old) in each
+    pokevc.check_patch(rep, 'C09')             # patch(): one store, as much of the file as fits, the bank keeps its length
     pokevc.check_move(rep, 'C09')              # move(): one block copy, between the banks / offsets the spec names
     quick = tier == 'quick'
     n, bad = rle_bounded(quick)
@@ -740,6 +741,14 @@ def replay(path):
         doc = json.load(f)
     case = doc.get('case')
     print('replaying', doc.get('key'), case)
+    if isinstance(case, dict) and 'patch_spec' in case:
+        from props import pokevc
+        r = pokevc.replay_patch({k: case[k] for k in ('page', 'address', 'file_length') if k in case}, '')
+        print(r['diffs'])
+        if r['diffs']:
+            print('VIOLATION property=C09 replay=%s' % path)
+            return 1
+        return 0
     if isinstance(case, dict) and 'move_spec' in case:
         from props import pokevc
         r = pokevc.replay_move({}, '')
